@@ -10,6 +10,7 @@ package rtsp
 
 import (
 	"sync"
+	"sync/atomic"
 
 	"github.com/q191201771/lal/pkg/base"
 	"github.com/q191201771/lal/pkg/sdp"
@@ -41,6 +42,7 @@ type PullSession struct {
 	baseInSession *BaseInSession
 
 	disposeOnce sync.Once
+	disposed    uint32 // atomic; set once Dispose has been called
 	waitChan    chan error
 }
 
@@ -217,6 +219,12 @@ func (session *PullSession) OnConnectResult() {
 // OnDescribeResponse callback by ClientCommandSession
 func (session *PullSession) OnDescribeResponse(sdpCtx sdp.LogicContext) {
 	session.onDescribeResponse()
+	// the callback may have refused this session and disposed it (the stream got another input while the pull
+	// was connecting): the SDP of a refused session must not reach the observer, which is the group of the
+	// ACCEPTED input
+	if atomic.LoadUint32(&session.disposed) != 0 {
+		return
+	}
 	session.baseInSession.InitWithSdp(sdpCtx)
 }
 
@@ -253,6 +261,7 @@ func (session *PullSession) WriteInterleavedPacket(packet []byte, channel int) e
 
 func (session *PullSession) dispose(err error) error {
 	var retErr error
+	atomic.StoreUint32(&session.disposed, 1)
 	session.disposeOnce.Do(func() {
 		Log.Infof("[%s] lifecycle dispose rtsp PullSession. session=%p", session.UniqueKey(), session)
 		e1 := session.cmdSession.Dispose()
